@@ -8,7 +8,10 @@ import oscgen as G
 import jetgen as J
 
 ID = "C07"
-GEN = ["gen_particle_tables"]
+GEN = ["gen_particle_tables", "gen_particle_init", "gen_jetscapeloader", "gen_oscarloader"]
+EXTRA_PROPERTY_FILES = ["SrcParticleInit", "SrcJetscapeLoader", "SrcOscarLoader"]     # Particle.py: construction of a particle from one line regenerated and proved equal to mk_particle / mk_jet_particle
+SOURCE_TIE_NOTE = ('as C01 (SrcOscarLoader, SrcJetscapeLoader, SrcParticleInit): the end-of-file / count-mismatch checks that make'
+    ' a damaged file raise are part of the regenerated read loops')
 ALLOWED_AXIOMS = []
 TRUSTED = [
     "Coq 8.16.1 kernel + vm_compute; every theorem closed under the global context",
